@@ -171,6 +171,7 @@ func (m *machine) registerIntrinsics() {
 		}
 		return nil
 	}
+	in[vs+"Dir"] = func(fr *frame, fn *ssa.Function, args []value) value { return args[0] }
 	in[vs+"Hash"] = func(fr *frame, fn *ssa.Function, args []value) value {
 		return fr.i.contentToken(args[0])
 	}
@@ -412,6 +413,7 @@ func (m *machine) registerIntrinsics() {
 
 	m.registerCodecIntrinsics()
 	m.registerEnvIntrinsics()
+	m.registerCBORIntrinsics()
 	m.registerReplacements()
 	m.registerEnvReplacements()
 }
